@@ -628,7 +628,47 @@ private:"""),
     dict(property="C01", name="status-enum-reordered", rule="R-C01-3", file="include/nano/solver/status.h", tu="src/solver.cpp",
          old="""    max_iters,  ///< maximum number of iterations reached without convergence (default)
     converged,  ///< convergence criterion reached""", new="""    converged,  ///< convergence criterion reached
-    max_iters,  ///< maximum number of iterations reached without convergence (default)"""),]
+    max_iters,  ///< maximum number of iterations reached without convergence (default)"""),    # ---- C03
+    dict(property="C03", name="csearch-converged-on-either-test", rule="R-C03-1", file="src/solver/csearch.cpp",
+         old="else if (const auto converged = econv && sconv; converged)", new="else if (const auto converged = econv || sconv; converged)"),
+    dict(property="C03", name="csearch-tests-before-solve", rule="R-C03-1", file="src/solver/csearch.cpp",
+         old="""        // estimate proximal point
+        bundle.solve(miu / t, logger);
+
+        y  = bundle.proximal(miu / t);""", new="""        // estimate proximal point
+        y  = bundle.proximal(miu / t);"""),
+    dict(property="C03", name="sconverged-tolerance-without-sqrt", rule="R-C03-2", file="src/solver/bundle.cpp",
+         old="""    const auto tol = epsilon * std::sqrt(static_cast<scalar_t>(m_x.size()));
+
+    return smeared_s().template lpNorm<2>() <= tol;""", new="""    const auto tol = epsilon * static_cast<scalar_t>(m_x.size());
+
+    return smeared_s().template lpNorm<2>() <= tol;"""),
+    dict(property="C03", name="rqb-converged-on-null-step", rule="R-C03-3", file="src/solver/rqb.cpp",
+         old="const auto converged = status == csearch_status::converged;", new="const auto converged = status == csearch_status::converged || status == csearch_status::null_step;"),
+    dict(property="C03", name="serious-step-shift-sign", rule="R-C03-4", file="src/solver/bundle.cpp",
+         old="m_bundleE(i) += fy - m_fx - m_bundleS.vector(i).dot(y - m_x);", new="m_bundleE(i) += fy - m_fx + m_bundleS.vector(i).dot(y - m_x);"),
+    dict(property="C03", name="null-step-error-swapped-points", rule="R-C03-4", file="src/solver/bundle.cpp",
+         old="m_bundleE(m_size)        = m_fx - (fy + gy.dot(m_x - y));", new="m_bundleE(m_size)        = m_fx - (fy + gy.dot(y - m_x));"),
+    dict(property="C03", name="moveto-moves-centre-first", rule="R-C03-4", file="src/solver/bundle.cpp",
+         old="""    append(y, gy, fy, serious_step);
+    m_x  = y;
+    m_gx = gy;
+    m_fx = fy;""", new="""    m_x  = y;
+    m_gx = gy;
+    m_fx = fy;
+    append(y, gy, fy, serious_step);"""),
+    dict(property="C03", name="ellipsoid-flag-on-squared-quantity", rule="R-C03-5", file="src/solver/ellipsoid.cpp",
+         old="const auto converged = std::sqrt(gHg) < epsilon;", new="const auto converged = gHg < epsilon;"),
+    dict(property="C03", name="two-cut-p-missing-half", rule="R-C03-6", file="src/solver/bundle.cpp",
+         old="const auto p = 0.5 * (Q(0, 1) + Q(1, 0)) - Q(1, 1) + c(0) - c(1);", new="const auto p = (Q(0, 1) + Q(1, 0)) - Q(1, 1) + c(0) - c(1);"),
+    dict(property="C03", name="two-cut-endpoint-choice-flipped", rule="R-C03-6", file="src/solver/bundle.cpp",
+         old="((0.5 * q + p) > 0.0 ? 0.0 : 1.0)", new="((0.5 * q + p) > 0.0 ? 1.0 : 0.0)"),
+    dict(property="C03", name="threshold-index-unclamped", rule="R-C03-7", file="src/solver/bundle.cpp",
+         old="thres = m_alphas(std::min(count, size() - count))", new="thres = m_alphas(count)"),
+    dict(property="C03", name="removal-predicate-strict", rule="R-C03-8", file="src/solver/bundle.cpp",
+         old="{ return m_bundleE(i) >= thres; });", new="{ return m_bundleE(i) > thres; });"),
+    dict(property="C03", name="delete-only-one-cut", rule="R-C03-8", file="src/solver/bundle.cpp",
+         old="    delete_largest(2);", new="    delete_largest(1);"),]
 
 BENIGN = [
     dict(property="C07", name="get-descent-test-inlined", file="src/lsearchk.cpp",
@@ -736,4 +776,14 @@ BENIGN = [
         if (solver_t::done(cstate, iter_ok, converged, logger))""", new="""        if (solver_t::done(cstate, iter_ok, cstate.gradient_test() < epsilon, logger))"""),
     dict(property="C01", name="criterion-via-maxcoeff", file="src/solver/state.cpp",
          old="return gx.lpNorm<Eigen::Infinity>() / std::max(scalar_t(1), std::fabs(m_fx));", new="return gx.array().abs().maxCoeff() / std::max(std::fabs(m_fx), scalar_t(1));"),
+    dict(property="C03", name="threshold-at-partition-point", file="src/solver/bundle.cpp",
+         old="thres = m_alphas(std::min(count, size() - count))", new="thres = m_alphas(size() - count)"),
+    dict(property="C03", name="econverged-tolerance-reordered", file="src/solver/bundle.cpp",
+         old="""    const auto tol = epsilon * std::sqrt(static_cast<scalar_t>(m_x.size()));
+
+    return smeared_e() <= tol;""", new="""    const auto tol = epsilon * std::sqrt(static_cast<scalar_t>(m_x.size()));
+    const auto err = smeared_e();
+    (void)err;
+
+    return smeared_e() <= tol;"""),
 ]
